@@ -2,4 +2,7 @@
 EXTENDS AstTree
 \* sort keys with ties: n1,n3 -> 2 ; n2,n4 -> 1 ; n5 -> 2
 KeyDef == [n \in Node |-> IF n \in {"n1", "n3", "n5"} THEN 2 ELSE 1]
+\* wide forests (trace validation of long sibling lists): 20 nodes, key of n_i = (7 i) mod 5
+WideSeq == <<"n1", "n2", "n3", "n4", "n5", "n6", "n7", "n8", "n9", "n10", "n11", "n12", "n13", "n14", "n15", "n16", "n17", "n18", "n19", "n20">>
+KeyWide == [n \in Node |-> ((CHOOSE i \in 1..20 : WideSeq[i] = n) * 7) % 5]
 =============================================================================
